@@ -185,7 +185,7 @@ class Gen:
             return ('r', r.choice([0, 1, (1 << (8 * size)) - 1, 1 << (8 * size - 1), (1 << (8 * size - 1)) - 1, r.randrange(1 << (8 * size))]))
         if k == 'Q':
             kind = t[1]
-            n = t[3] if t[3] is not None else r.choice([0, 0, 1, 2, 3, 5, 33, 40] if depth < 2 else [0, 1, 2])
+            n = t[3] if t[3] is not None else r.choice(([0, 1, 6, 255, 256, 257, 300, 600] if kind == 'vector_bool' and depth < 2 else [0, 0, 1, 2, 3, 5, 33, 40]) if depth < 2 else [0, 1, 2])
             vs = [self.val(t[2], depth + 1) for _ in range(n)]
             if kind == 'map':
                 size = ARITH[t[2][1][0][1]][1]; signed = ARITH[t[2][1][0][1]][2]
@@ -318,6 +318,18 @@ def no_inner_carray(g, t, top=True):
     if k == 'S': return all((x[0] == 'Q' and x[1] == 'carray' and no_inner_carray(g, x[2], False)) or no_inner_carray(g, x, False) for _, x in t[2])
     return True
 
+def compat_of(g, t):
+    """a tag-compatible destination type (same tag, other containers): what C05_decode_compatible quantifies over"""
+    k = t[0]; r = g.rng
+    if k == 'Q':
+        kind, e, n = t[1], compat_of(g, t[2]), t[3]
+        if kind in ('vector', 'deque', 'list', 'forward_list'): return ('Q', r.choice(['vector', 'deque', 'list']), e, None)
+        if kind == 'array': return ('Q', r.choice(['array', 'array', 'vector']), e, n if True else None) if r.random() < 0.7 else ('Q', 'array', e, n)
+        return (k, kind, e if kind not in ('set', 'multiset', 'map', 'string', 'vector_bool') else t[2], n)
+    if k == 'T': return ('T', [compat_of(g, x) for x in t[1]], (not t[2]) if len(t[1]) == 2 and r.random() < 0.5 else t[2])
+    if k == 'O': return ('O', r.choice(['unique', 'shared', 'optional']) if t[1] != 'raw' and not getattr(g, 'in_cont', 0) else t[1], compat_of(g, t[2]))
+    return t
+
 def make_case(rng, idx, floats=True, max_depth=4):
     """returns (model_line, cpp_defs, cpp_body, info)"""
     while True:
@@ -330,7 +342,17 @@ def make_case(rng, idx, floats=True, max_depth=4):
     ctype, name, suffix = g.cpp_decl(t, 'x')
     body.append('  { %s %s%s{};' % (ctype, name, suffix))
     g.build(t, v, 'x', body, '    ')
-    body.append('    mc::run_case<%s>(x); }' % ('true' if g.deserializable(t) else 'false'))
+    deser = g.deserializable(t)
+    body.append('    const std::string bytes = mc::run_case<%s>(x);' % ('true' if deser else 'false'))
+    xt = fx = False
+    if deser:
+        t2 = compat_of(g, t)
+        if t2 != t and not (t2[0] == 'Q' and t2[1] == 'carray'):
+            body.append('    mc::cross<%s>(bytes);' % g.cpp(t2)); xt = True
+        if t[0] == 'Q' and t[1] in ('vector', 'deque', 'list', 'forward_list', 'array') and len(v[1]) < 30:
+            body.append('    mc::mismatch<std::array<%s, %d>>(bytes);' % (g.cpp(t[2]), len(v[1]) + rng.choice([1, 2] if len(v[1]) == 0 else [-1, 1])))
+            fx = True
+    body.append('    mc::endcase(); }')
     kinds = set()
     def walk(t):
         kinds.add(t[0] + (':' + t[1] if t[0] in ('Q', 'O') else ''))
@@ -339,7 +361,7 @@ def make_case(rng, idx, floats=True, max_depth=4):
         elif t[0] == 'O': walk(t[2])
         elif t[0] == 'S': [walk(x) for _, x in t[2]]
     walk(t)
-    return line, g.defs, body, {'deser': g.deserializable(t), 'kinds': kinds, 't': t, 'v': v, 'gen': g}
+    return line, g.defs, body, {'deser': g.deserializable(t), 'kinds': kinds, 't': t, 'v': v, 'gen': g, 'xt': xt, 'fx': fx}
 
 def program(cases):
     """cases: list of (defs, body). One translation unit."""
